@@ -219,7 +219,25 @@ def scratch_findings(repo: Repo, rels: Iterable[str]) -> List[Tuple[Module, ast.
                 methods = {s.method for s in sts if s.method}
                 resets = methods & {"clear"}
                 names_for = {shared} | {a for a, sh in aliases.items() if sh == shared}
-                returned = any(isinstance(r, ast.Return) and r.value is not None and (names_for & paths_in(r.value))
+                def hands_out(v) -> bool:
+                    """the returned value IS the shared object (or an attribute / element / collection holding it),
+                    not the result of calling something on it"""
+                    if isinstance(v, (ast.Tuple, ast.List, ast.Set)):
+                        return any(hands_out(e) for e in v.elts)
+                    if isinstance(v, ast.Dict):
+                        return any(hands_out(e) for e in v.values if e is not None)
+                    if isinstance(v, ast.IfExp):
+                        return hands_out(v.body) or hands_out(v.orelse)
+                    if isinstance(v, ast.Starred):
+                        return hands_out(v.value)
+                    p_ = ap(v)
+                    while p_ is None and isinstance(v, ast.Subscript):
+                        v = v.value
+                        p_ = ap(v)
+                    if not p_ or "(" in p_ or isinstance(v, ast.Call):
+                        return False        # the result of a call on it is a new value, not the object itself
+                    return any(p_ == nm or p_.startswith(nm + ".") for nm in names_for)
+                returned = any(isinstance(r, ast.Return) and r.value is not None and hands_out(r.value)
                                and not any(_copied(r.value, nm) for nm in names_for) for r in walk(fi.node))
                 fills = methods - {"clear", "pop", "remove", "discard", "popitem"} or \
                     any(s.kind in ("setitem", "augsetitem") for s in sts)
